@@ -675,7 +675,13 @@ func ConnectionEnd(d *fw.Driver, res *fw.Result, seed int64, thorough bool) erro
 		return err
 	}
 	base += 50
-	return rawEnd(res, seed, "reverse-call-write-fails-rst", base)
+	if err := rawEnd(res, seed, "reverse-call-write-fails-rst", base); err != nil {
+		return err
+	}
+	// the connection loop itself is inside the write of a reverse request (to a peer that is alive but not reading)
+	// when the server shuts the connection down
+	base += 50
+	return rawEnd(res, seed, "reverse-call-write-server-cancel", base)
 }
 
 // rawEnd: connection ends seen from a peer that is not this library's client.
@@ -704,7 +710,7 @@ func rawEnd(res *fw.Result, seed int64, mode string, base int) error {
 		time.Sleep(time.Millisecond)
 	}
 	switch mode {
-	case "reverse-call-write-fails-rst":
+	case "reverse-call-write-fails-rst", "reverse-call-write-server-cancel":
 		// a handler makes a reverse call whose request is far larger than the socket buffers, to a peer that
 		// never reads: the main loop is stuck writing it; then the peer resets the connection, the write fails
 		conn.WriteMessage(websocket.TextMessage, []byte(fmt.Sprintf(`{"jsonrpc":"2.0","id":2,"method":"SH.CallBackBig","params":[%d,%d]}`, base+2, 48<<20)))
@@ -725,10 +731,14 @@ func rawEnd(res *fw.Result, seed int64, mode string, base int) error {
 			}
 			time.Sleep(time.Millisecond)
 		}
-		if tc != nil {
-			tc.SetLinger(0)
+		if mode == "reverse-call-write-server-cancel" {
+			e.SrvCancel()
+		} else {
+			if tc != nil {
+				tc.SetLinger(0)
+			}
+			conn.Close()
 		}
-		conn.Close()
 	case "stalled-writer-fin", "stalled-writer-server-cancel", "stalled-writer-ping-closeframe", "stalled-writer-ping-server-cancel":
 		// a response far larger than the socket buffers, to a peer that never reads: the writer holds the
 		// write lock, the pinger queues behind it
@@ -802,7 +812,7 @@ func rawEnd(res *fw.Result, seed int64, mode string, base int) error {
 	for w := 0; w < 3000 && !h.C.Exited(base+1); w++ {
 		time.Sleep(time.Millisecond)
 	}
-	if mode == "reverse-call-write-fails-rst" {
+	if strings.HasPrefix(mode, "reverse-call-write-") {
 		// the handler inside the reverse call must come back (the call fails), not stay blocked
 		ok2 := false
 		for w := 0; w < 5000; w++ {
